@@ -118,3 +118,21 @@ Proof. repeat split; vm_compute; reflexivity. Qed.
 (* a limit that is not positive never refuses *)
 Lemma limit_off cfg ts : (sc_limit cfg <= 0)%Z -> limit_ok (sc_limit cfg) ts = true.
 Proof. intros H. unfold limit_ok. destruct (0 <? sc_limit cfg)%Z eqn:E; [apply Z.ltb_lt in E; exfalso; apply (Z.lt_irrefl 0); eapply Z.lt_le_trans; eauto | reflexivity]. Qed.
+
+(* ---------------- a list nested in a list, both keyed by a leaf named id: the key leaf of the inner entry must
+   carry the inner entry's key; the same-named key of the enclosing entry does not count (fix 7b08917) *)
+Definition nested_plugin : plugin :=
+  mkPlugin (B "devicesim") (B "1.0.0")
+    [ rw (B "/cont/outer[id=*]/id") true (B "id"); rw (B "/cont/outer[id=*]/inner[id=*]/id") true (B "id");
+      rw (B "/cont/outer[id=*]/inner[id=*]/val") false (B "val") ].
+Definition nested_cfg : server_cfg := mkCfg [ mkEnt (B "t1") (Some (B "devicesim", B "1.0.0")) ] [ nested_plugin ] 0.
+Definition nested_req (v : str) : request :=
+  mkReq (path (B "t1") [el (B "cont")]) [] []
+        [ supd (B "") [elk (B "outer") [(B "id", B "a")]; elk (B "inner") [(B "id", B "b")]; el (B "val")] (B "x");
+          supd (B "") [elk (B "outer") [(B "id", B "a")]; elk (B "inner") [(B "id", B "b")]; el (B "id")] v ] [].
+
+Example nested_key_examples :
+  set_resolve false nested_cfg no_json (nested_req (B "a")) = Err CInvalid /\
+  set_resolve false nested_cfg no_json (nested_req (B "c")) = Err CInvalid /\
+  (exists t, set_resolve false nested_cfg no_json (nested_req (B "b")) = Ok t).
+Proof. repeat split; try (vm_compute; reflexivity). eexists. vm_compute. reflexivity. Qed.
